@@ -20,10 +20,11 @@ import (
 // ---------------- corpus ----------------
 
 type corpus struct {
-	sql  []string // fixture inputs of tests/*sqli*, *folding*, *tokens*
-	html []string // fixture inputs of tests/*html5* and the literals of xss_test.go
-	kept []string // /verif/corpus/*.txt (hex, one per line): minimised disagreements ever found
-	dict []string // string literals of the source + table keys
+	sql   []string // fixture inputs of tests/*sqli*, *folding*, *tokens*
+	html  []string // fixture inputs of tests/*html5* and the literals of xss_test.go
+	kept  []string // /verif/corpus/*.txt (hex, one per line): minimised disagreements ever found
+	dict  []string // string literals of the source + table keys
+	logic []string // string literals of the logic files only (names the code compares against)
 }
 
 func readFixtureInput(path string) (string, bool) {
@@ -98,6 +99,13 @@ func loadCorpus(repo, verif string) *corpus {
 				c.kept = append(c.kept, "")
 			} else if b, err := hex.DecodeString(ln); err == nil {
 				c.kept = append(c.kept, string(b))
+			}
+		}
+	}
+	if data, err := os.ReadFile(filepath.Join(verif, "build", "dict_logic.txt")); err == nil {
+		for _, ln := range strings.Split(string(data), "\n") {
+			if b, err := hex.DecodeString(strings.TrimSpace(ln)); err == nil && len(b) > 0 {
+				c.logic = append(c.logic, string(b))
 			}
 		}
 	}
@@ -457,6 +465,16 @@ func tablePhrases(emit func(string)) {
 			emit(fmt.Sprintf(f, p))
 			emit(fmt.Sprintf(f, lp))
 		}
+		// the words of the phrase carried by tokens of other classes (variable, strings,
+		// quoted identifiers): merge must look at the class, not only at the value
+		if i := strings.IndexByte(lp, ' '); i > 0 {
+			a, b := lp[:i], lp[i+1:]
+			for _, q := range [][2]string{{"@", ""}, {"'", "'"}, {"\"", "\""}, {"`", "`"}, {"[", "]"}, {"@@", ""}, {"$", ""}, {"0x", ""}, {"", "("}, {"", "."}} {
+				emit("1 " + a + " " + q[0] + b + q[1] + " 1")
+				emit("1 " + q[0] + a + q[1] + " " + b + " 1")
+				emit(a + " " + q[0] + b + q[1] + "(0)")
+			}
+		}
 		emit("1 " + strings.Replace(lp, " ", "\t", 1) + " 1")
 		emit("1 " + strings.Replace(lp, " ", "  ", 1) + " 1")
 		emit("1 " + strings.Replace(lp, " ", "/**/", 1) + " 1")
@@ -475,6 +493,34 @@ func tablePhrases(emit func(string)) {
 			emit("1 " + strings.ToLower(f+" "+x) + " 1")
 		}
 	}
+}
+
+// nearMisses: every word-like name with itself, its lower case, and the names one edit away
+// (last byte dropped, first byte dropped, a byte appended, last byte changed).
+func nearMisses(names []string) []string {
+	seen := map[string]bool{}
+	var out []string
+	add := func(x string) {
+		if x != "" && !seen[x] {
+			seen[x] = true
+			out = append(out, x)
+		}
+	}
+	for _, w := range names {
+		if len(w) < 2 || strings.ContainsAny(w, " \t\n'\"`") && len(w) > 12 {
+			continue
+		}
+		add(w)
+		add(strings.ToLower(w))
+		add(w[:len(w)-1])
+		add(w[1:])
+		add(w + "x")
+		add(w + "S")
+		b := []byte(w)
+		b[len(b)-1] ^= 1
+		add(string(b))
+	}
+	return out
 }
 
 func sqlAll(c *corpus, r *rng, tier string, scale int) *inputSet {
@@ -504,6 +550,11 @@ func sqlAll(c *corpus, r *rng, tier string, scale int) *inputSet {
 	whitelistShapes(func(x string) { s.add("whitelist-shapes", x) })
 	foldShapes(func(x string) { s.add("fold-shapes", x) })
 	tablePhrases(func(x string) { s.add("table-phrases", x) })
+	for _, w := range nearMisses(c.logic) {
+		for _, f := range []string{"%s", "%s(", "%s (1)", "@%s(1)", "@@%s (1)", "'%s'(1)", "`%s`(1)", "1 %s 1", "1 %s (1)", "x' %s 'y", "; %s 1=1", "1 %s outfile 'x'", "select %s(1)", "1 not %s (1)", "1 %s", "%s 1"} {
+			s.add("logic-words", fmt.Sprintf(f, w))
+		}
+	}
 	for i := 0; i < z.randBytes; i++ {
 		s.add("random-bytes", randomSeq(r, sqlAlphabet, 3, 9))
 	}
@@ -608,6 +659,31 @@ func htmlAll(c *corpus, r *rng, tier string, scale int) *inputSet {
 	}
 	exhaustive(htmlAlphabet, depth, func(x string) { s.add("exhaustive", x) })
 	wrappedVectors(func(x string) { s.add("wrapped-vectors-with-tails", x) })
+	for _, w := range nearMisses(c.logic) {
+		for _, f := range []string{"<%s>", "<%s ", "<%s/", "<a %s=x>", "<a href=%s:x>", "<a href='%s:x'>", "<a href=\" %sscript:x\">", "<!%s x>", "<?%s x>", "<![%s", "<a on%s=x>", "<a %s:href=x>", "<!--[%s x]>", "%s"} {
+			s.add("logic-words", fmt.Sprintf(f, w))
+		}
+	}
+	gTags, gBlacks, gEvents := grammarLists()
+	for _, w := range nearMisses(gTags) {
+		s.add("near-miss-names", "<"+w+">")
+		s.add("near-miss-names", "x><"+w+" ")
+	}
+	var bl, ev []string
+	for _, a := range gBlacks {
+		bl = append(bl, a.Name)
+	}
+	for _, e := range gEvents {
+		ev = append(ev, e.Name)
+	}
+	for _, w := range nearMisses(bl) {
+		s.add("near-miss-names", "<a "+w+"=x>")
+		s.add("near-miss-names", "<a "+w+"=javascript:x>")
+		s.add("near-miss-names", "<a "+w+"=onclick>")
+	}
+	for _, w := range nearMisses(ev) {
+		s.add("near-miss-names", "<a on"+w+"=x>")
+	}
 	for i := 0; i < nrand; i++ {
 		s.add("random", randomSeq(r, htmlAlphabet, 3, 10))
 	}
